@@ -82,9 +82,12 @@ func (n *Tree[T]) Remove(value T) bool {
 		return false
 	}
 	newRoot, ok := n.root.remove(value, n.compare)
+	if !ok {
+		return false
+	}
 	n.root = newRoot
 	n.count--
-	return ok
+	return true
 }
 
 // Clear will reset this tree to an empty tree.
